@@ -480,8 +480,22 @@ pub fn run_trace(cfg: &Cfg, real_delay: bool) -> Vec<String> {
         for i in 0..n {
             let l = log.clone();
             let (family, v6) = (cfg.family, cfg.v6);
+            let incarnation = Rc::new(std::cell::Cell::new(0u32));
             sim.host(format!("h{i}"), move || {
                 let l = l.clone();
+                // the synchronous part of the software factory runs inside `Sim::bounce`: the
+                // clocks it reads there are part of the execution (not at registration, where
+                // no host is current yet)
+                let inc = incarnation.get();
+                incarnation.set(inc + 1);
+                if inc > 0 {
+                    l.borrow_mut().push(format!(
+                        "P h{i} restarted (incarnation {inc}) reads elapsed {:?} sim_elapsed {:?} since_epoch {:?}",
+                        turmoil::elapsed(),
+                        turmoil::sim_elapsed(),
+                        turmoil::since_epoch()
+                    ));
+                }
                 async move {
                     match family {
                         0 => prog_udp(l, i, n, v6).await,
@@ -510,6 +524,12 @@ pub fn run_trace(cfg: &Cfg, real_delay: bool) -> Vec<String> {
                     8
                 };
                 std::thread::sleep(Duration::from_millis(ms));
+            }
+            // a bounce runs the software factory at once: in the second run real time is pushed
+            // beyond the virtual time the host has consumed, so a clock read there that mixes in
+            // the wall clock shows
+            if real_delay && matches!((cfg.script, k), (3, 11) | (4, 5) | (4, 15)) {
+                std::thread::sleep(Duration::from_millis(cfg.tick_ms * (k as u64 + 1) + 2));
             }
             // controller script
             match (cfg.script, k) {
